@@ -14,6 +14,7 @@ import (
 	"strings"
 	"time"
 
+	"github.com/coredhcp/coredhcp/plugins/leasetime"
 	rangeplugin "github.com/coredhcp/coredhcp/plugins/range"
 	"github.com/coredhcp/coredhcp/handler"
 	"github.com/insomniacslk/dhcp/dhcpv4"
@@ -45,6 +46,9 @@ type rangeCase struct {
 	// SlowRenew: after the history, one client re-requests twice with real pauses in
 	// between (the promise moves forward with the clock; the stored expiry must follow)
 	SlowRenew int `json:"slow_renew_ms,omitempty"`
+	// LeaseTimeBefore: the lease_time plugin (with this value) is placed before range in the chain, as in
+	// the shipped example configuration; range still decides the lease it promises and stores
+	LeaseTimeBefore string `json:"lease_time_before,omitempty"`
 }
 
 type rangeEngine struct{}
@@ -126,10 +130,15 @@ func (rangeEngine) Gen(rng *rand.Rand, tier string, i int) any {
 	}
 	if i%6 == 5 {
 		c.SlowRenew = 2200 + rng.Intn(600)
-		c.Lease = []string{"10m", "1h", "24h"}[rng.Intn(3)]
+		// short leases expire during the pauses: the code has no expiry/GC, so the binding must survive;
+		// long leases make the stored expiry follow the clock
+		c.Lease = []string{"10m", "1h", "24h", "1s", "2s"}[rng.Intn(5)]
 		if c.Reqs > 20 {
 			c.Reqs = 20
 		}
+	}
+	if i%5 == 3 {
+		c.LeaseTimeBefore = []string{"3600s", "24h", "30s", "86400s"}[rng.Intn(4)]
 	}
 	seen := map[string]bool{}
 	for len(c.Clients) < n+3 {
@@ -225,7 +234,7 @@ func (rangeEngine) Run(ctx *fw.Ctx, cs any) {
 		return
 	}
 	r.h = h
-	r.s = newSrv4([]handler.Handler4{h}, loIface())
+	r.s = newSrv4(r.chain(h), loIface())
 	used := 0
 	served2 := false
 	exhausted := false
@@ -257,7 +266,7 @@ func (rangeEngine) Run(ctx *fw.Ctx, cs any) {
 			r.h, r.end, r.leaseS = h, newEnd, newLease
 			r.m.End = newEnd
 			r.lease, _ = time.ParseDuration(newLease)
-			r.s = newSrv4([]handler.Handler4{h}, loIface())
+			r.s = newSrv4(r.chain(h), loIface())
 			restarted = true
 		}
 		// choose a client: new one (fills the pool) or a known one
@@ -292,7 +301,12 @@ func (rangeEngine) Run(ctx *fw.Ctx, cs any) {
 			if got := rep.IPAddressLeaseTime(-1); got != want {
 				ctx.Viol("C02", "lease-time", "reply to %s carries lease time %v, configured %v", key, got, want)
 			}
-			r.promise[key] = tBefore.Add(r.lease)
+			// the lease promised to the client is the one in the reply (another plugin may have had a say)
+			promised := rep.IPAddressLeaseTime(r.lease)
+			if promised < r.lease {
+				promised = r.lease
+			}
+			r.promise[key] = tBefore.Add(promised)
 			if !wasKnown {
 				ctx.Count("range.new_bindings", 1)
 				if !wasFull {
@@ -340,6 +354,37 @@ func (rangeEngine) Run(ctx *fw.Ctx, cs any) {
 				if !r.crashPoint(c.Reqs + k) {
 					return
 				}
+			}
+			// leases that expired meanwhile are still bindings: exhaust the pool with fresh clients, then every
+			// earlier client must still get its first address
+			for x := 0; x < r.m.N()+2 && !r.m.Full(); x++ {
+				fresh := rangeClient{Mac: hex.EncodeToString([]byte{0x02, 0xfe, 0xfe, 0xfe, byte(x >> 8), byte(x)})}
+				fm, _ := hex.DecodeString(fresh.Mac)
+				rep, _, _ := one4(r.s, r.request(fresh, 1))
+				if sig, msg := r.m.Judge(clientKey(fm), rep != nil, yi(rep)); sig != "" {
+					ctx.Viol("C02", sig, "after leases expired: %s\n  last: %v", msg, r.trace)
+					break
+				}
+			}
+			if r.m.Full() {
+				late := rangeClient{Mac: hex.EncodeToString([]byte{0x02, 0xfd, 0xfd, 0xfd, 0, 1})}
+				lm, _ := hex.DecodeString(late.Mac)
+				rep, _, _ := one4(r.s, r.request(late, 1))
+				if sig, msg := r.m.Judge(clientKey(lm), rep != nil, yi(rep)); sig != "" {
+					ctx.Viol("C02", sig, "every address is bound (some leases have run out, but bindings do not expire): %s\n  last: %v", msg, r.trace)
+				}
+				ctx.Count("range.unknown_after_expiry_when_full", 1)
+			}
+			for i := 0; i < used && i < 12; i++ {
+				cm, _ := hex.DecodeString(c.Clients[i].Mac)
+				if _, ok := r.m.Bind[clientKey(cm)]; !ok {
+					continue
+				}
+				rep, _, _ := one4(r.s, r.request(c.Clients[i], 3))
+				if sig, msg := r.m.Judge(clientKey(cm), rep != nil, yi(rep)); sig != "" {
+					ctx.Viol("C02", sig, "after its lease time had passed and the pool was exhausted: %s\n  last: %v", msg, r.trace)
+				}
+				ctx.Count("range.rechecked_after_expiry", 1)
 			}
 		}
 	}
@@ -562,4 +607,18 @@ func repStr(rep *dhcpv4.DHCPv4) string {
 		return "no reply"
 	}
 	return rep.YourIPAddr.String()
+}
+
+// chain places the lease_time plugin before range when the case asks for it. lease_time keeps its value
+// in a package global; cases run one after the other in a worker, and the value is set right here.
+func (r *rangeRun) chain(h handler.Handler4) []handler.Handler4 {
+	if r.c.LeaseTimeBefore == "" {
+		return []handler.Handler4{h}
+	}
+	lt, err := leasetime.Plugin.Setup4(r.c.LeaseTimeBefore)
+	if err != nil {
+		return []handler.Handler4{h}
+	}
+	r.ctx.Count("range.chains_with_lease_time_first", 1)
+	return []handler.Handler4{lt, h}
 }
